@@ -16,6 +16,15 @@ ann = json.load(open(os.path.join(ROOT, "seeded", "annotations.json")))
 taken = [(k, v) for k, v in sorted(ann.items()) if k.split("-")[0] == pid]
 
 FOCUS = {
+    "11": """This is a SHORT round with a TIME LIMIT: deliver ONE change only (directory ...-r11-1) and finish within about 25 minutes of
+work; no remarks file unless you stumble over something in the unchanged library. The change must contradict a clause of
+THIS property's text directly, observably through the API or on the wire (name the clause in notes.md) - a change that
+only breaks some other guarantee of the library does not count. Prefer what no earlier round touched: look at the list
+of taken ideas, find the source file, function or code path behind this property that NONE of them modified, and plant the
+change there; or a change that shows only under a combination nobody lists: a particular role AND a particular
+compression agreement AND a particular size; the third message but not the second; an error followed by a retry; two
+features used in one call sequence. The best changes are those where the obvious test (one connection, one message,
+default options, the library talking to itself) stays green.""",
     "10": """This is a SHORT round with a TIME LIMIT: deliver ONE change only (directory ...-r10-1) and finish within about 30 minutes of
 work; do not write a remarks file unless you stumble over something. Prefer what no earlier round touched: look at the
 list of taken ideas, find the source file, function or code path of this property that NONE of them modified, and plant
